@@ -14,7 +14,7 @@ EXPECTED_PROBES = ["c12-elitist-pairs", "c12-sorted-vector-pairs", "c12-sizes-ju
                    "c12-sentinel-in-population", "c12-cma-lambda-judged", "c12-inner-pairs"]
 ASSUMPTIONS = ["NaN never occurs (objectives are NaN-free); +-inf sentinels are ordinary worst values"]
 
-PROFILE = P.profile(gens=[1, 2, 2, 3, 4], p_cutoff=0.3, entry_w={"tree": 9, "hms": 1, "minimize": 0},
+PROFILE = P.profile(gens=[1, 2, 2, 3, 4], p_no_elite=0.1, p_cutoff=0.3, entry_w={"tree": 9, "hms": 1, "minimize": 0},
                     root_engines={"ea": 6, "de": 3, "shade": 3, "lhs": 0.5, "sobol": 0.5, "custom": 0.3},
                     leaf_engines={"ea": 4, "de": 3, "shade": 3, "cma": 3, "local": 0.3},
                     objective_kinds=["sphere", "ellipsoid", "rastrigin", "funnel", "rosenbrock", "linear", "stair", "stair",
